@@ -2,8 +2,8 @@
 MUTANTS = []
 
 
-def M(prop, name, f, old, new, expect='', kind='mutant'):
-    MUTANTS.append({'prop': prop, 'name': name, 'edits': [(f, old, new)], 'expect': expect, 'kind': kind})
+def M(prop, name, f, old, new, expect='', kind='mutant', tier='quick'):
+    MUTANTS.append({'prop': prop, 'name': name, 'edits': [(f, old, new)], 'expect': expect, 'kind': kind, 'tier': tier})
 
 
 PCF = 'src/geom3/point_cloud.rs'
@@ -474,3 +474,6 @@ M('C19', 'neutral-rank-filter-count', SVF, """        let mut rank = 0;
         rank""", "        self.sv.iter().filter(|s| **s > tol).count()", '', kind='neutral')
 M('C19', 'from_bases-iterative-extraction', I3F, "    let r = UnitQuaternion::from_rotation_matrix(&Rotation3::from_matrix_unchecked(rot_m));\n    let t = if let Some(o) = origin {", "    let r = UnitQuaternion::from_matrix(&rot_m);\n    let _ = Rotation3::<f64>::identity();\n    let t = if let Some(o) = origin {", 'from_bases')
 M('C19', 'iso2-iterative-extraction', SVF, "    let r = UnitComplex::from_rotation_matrix(&Rotation2::from_matrix_unchecked(rot_m));", "    let r = UnitComplex::from_matrix(&rot_m);", 'iso2_from_basis:exact-rotation')
+# ---------------------------------------------------------------- thorough tier: type-level witnesses
+M('C17', 'witness-derefmut', 'src/common/discrete_domain.rs', "impl Deref for DiscreteDomain {", "impl std::ops::DerefMut for DiscreteDomain {\n    fn deref_mut(&mut self) -> &mut [f64] {\n        &mut self.values\n    }\n}\n\nimpl Deref for DiscreteDomain {", 'WITNESS:C17DomainNoIndexMut', tier='thorough')
+M('C01', 'witness-lengths-pub', 'src/geom2/curve2.rs', "    lengths: Vec<f64>,", "    pub lengths: Vec<f64>,", 'WITNESS:C01LengthsPrivate', tier='thorough')
